@@ -309,7 +309,8 @@ Print Assumptions C40_stream_check_settled_sound.
 Theorem C40_stream_obs_consistent : forall s o, SL.reachable SL.Code s -> SL.no_mutator s ->
   zshared_matches s o = true ->
   (match zo_readers o with [] => false | _ => true end && negb (zo_closed o)) = false
-  /\ list_eqb Nat.eqb (zo_readers o) (zo_cbs o) = true.
+  /\ list_eqb Nat.eqb (zo_readers o) (zo_cbs o) = true
+  /\ (2 <=? zo_rtsp o) = false.
 Proof. exact C40_StreamCheck.zobs_consistent. Qed.
 Print Assumptions C40_stream_obs_consistent.
 
